@@ -47,6 +47,19 @@ def body(r, nodes, first):
             stmts.append(A.attre(A.var(x), A.var(y), A.attr(an, val)))
         elif k == 19:
             stmts.append(A.attre(A.var(x), A.var(y), A.attr("w", A.integer(1))))
+    if r.random() < 0.25:
+        # one statement naming an attribute twice (equal: accepted; different: a conflict), directly and through a shorthand
+        x = r.choice(names)
+        v1 = r.choice([A.integer(1), A.string("x")])
+        v2 = v1 if r.random() < 0.5 else r.choice([A.integer(2), A.string("y")])
+        kind = r.randrange(3)
+        if kind == 0:
+            stmts.append(A.attrn(A.var(x), A.attr("dd", v1), A.attr("dd", v2)))
+        elif kind == 1:
+            stmts.append(A.attrn(A.var(x), A.attr("both", v1), A.attr("bk", v2)))
+        else:
+            stmts.append(A.edge(A.var(x), A.var(x)))
+            stmts.append(A.attre(A.var(x), A.var(x), A.attr("bk", v2), A.attr("both", v1)))
     return stmts
 
 
@@ -58,7 +71,7 @@ def make_run_prog(r, prev_globals, first):
         stanzas.append(A.stanza(q, body(r, prev_globals, True)[: r.randint(2, 5)]))
     if r.random() < 0.3:
         stanzas.append(A.stanza("(module) @_m ", body(r, prev_globals, False)))
-    return A.file(stanzas, globals_=gl)
+    return A.file(stanzas, globals_=gl, shorthands=[A.shorthand("both", "bv", [A.attr("bk", A.var("bv")), A.attr("bl", A.var("bv"))])])
 
 
 def make_cases(tier):
